@@ -6,6 +6,7 @@ from .. import inputs
 from . import geom
 
 SPEC = dict(
+    technique='Lean 4 proof (unit twists = screw motions; regenerated model) + float monitor',
     lean_modules=['SmVerif.Props.C18', 'SmVerif.Props.VecPreds', 'SmVerif.Props.TwistOps'],
     groups=['Transforms3d', 'Transforms2d', 'TransformsNd', 'Vectors', 'Twists'],
     expected_untranslatable=('trinterp_T', 'trinterp_T_nostart'),
